@@ -240,7 +240,7 @@ package allocator
 //@     && ((x in a.poolIPV4InUse[pool]) ==> a.poolIPV4InUse[pool][x] != 0) && ((x in a.poolIPV6InUse[pool]) ==> a.poolIPV6InUse[pool][x] != 0)
 //@ func (*Allocator).Unassign
 //@   ensures [noZeroEntry] old(a.allocated[svc]) != nil ==> (let al0 := old(a.allocated[svc]) in forall k int :: 0 <= k && k < len(al0.ips) ==> NoZeroAt(a, al0.pool, net.ipstr(al0.ips[k])))
-//@   loop 1 invariant forall k int :: 0 <= k && k < iter ==> NoZeroAt(a, al.pool, net.ipstr(al.ips[k]))
+//@   loop 1 invariant forall k int :: { al.ips[k] } 0 <= k && k < iter ==> NoZeroAt(a, al.pool, net.ipstr(al.ips[k]))
 //@   requires Inv(a) && a.countersChangedCallback != nil && PoolsOK(a.pools.ByName)
 //@   modifies map[string]*alloc, map[Port]string, map[string]bool, map[string]int, map[string]PoolCounters, fresh *ipaddr.Prefix, fresh *ipaddr.Cursor, fresh *ipaddr.Position, fresh []ipaddr.Prefix, gint("cursor.pos"), fresh []string, fresh []interface{}, $held
 //@   requires [unlocked] lockstate(a.countersMutex) == 0
@@ -272,6 +272,9 @@ package allocator
 //@   assert after String#1: [hasPort] HasPort(al, port)
 //@   assert after String#1: [notRel] !ReleasedPort(al, idx(1), idx(2), net.ipstr(ip), port)
 //@   assert after String#1: [own] OwnsPortG(true, nil, true, svc, al, idx(1), idx(2), svc, net.ipstr(ip), port)
+//@   assert after String#1: [mineHere] (svc in a.servicesOnIP[net.ipstr(ip)]) && a.allocated[svc] == nil
+//@   assert after String#1: [own2] OwnsPortG(svc in a.servicesOnIP[net.ipstr(ip)], a.allocated[svc], true, svc, al, idx(1), idx(2), svc, net.ipstr(ip), port)
+//@   assert after String#1: [ownerIsMe] (port in a.portsInUse[net.ipstr(ip)]) && a.portsInUse[net.ipstr(ip)][port] == svc
 //@   assert after delete#2: [relStep] forall x string, p Port :: ReleasedPort(al, idx(1), idx(2) + 1, x, p) == (ReleasedPort(al, idx(1), idx(2), x, p) || (x == net.ipstr(ip) && p == port))
 //@   assert after delete#2: [ownStep] forall in bool, cur *alloc, s string, x string, p Port :: OwnsPortG(in, cur, true, svc, al, idx(1), idx(2) + 1, s, x, p) ==
 //@       (OwnsPortG(in, cur, true, svc, al, idx(1), idx(2), s, x, p) && !(s == svc && x == net.ipstr(ip) && p == port))
